@@ -90,23 +90,29 @@ def loadOptIdentity : Option (IdentityPem Chain) → Except CfgErr (Option Chain
     | .ok ch => .ok (some ch)
     | .error e => .error e
 
+/-- `let mut roots = RootCertStore::from_iter(trust_anchors);` then, under
+`#[cfg(feature = "tls-native-roots")] if with_native_roots { … }`: load the platform store,
+fail if it is empty, add it. -/
+def nativeStep (sys : Sys Root) (cfg : ClientTlsConfig Root Chain) : Except CfgErr (List Root) :=
+  if sys.featNative && cfg.withNativeRoots then
+    (if sys.nativeCerts.isEmpty then .error .nativeCertsNotFound
+     else .ok (cfg.trustAnchors ++ sys.nativeCerts))
+  else .ok cfg.trustAnchors
+
+/-- `#[cfg(feature = "tls-webpki-roots")] if with_webpki_roots { roots.extend(…) }` -/
+def webpkiStep (sys : Sys Root) (cfg : ClientTlsConfig Root Chain) (roots : List Root) : List Root :=
+  if sys.featWebpki && cfg.withWebpkiRoots then roots ++ sys.webpkiRoots else roots
+
 def TlsConnector.new (sys : Sys Root) (cfg : ClientTlsConfig Root Chain) (domain : String) :
     Except CfgErr (TlsConnector Root Chain) :=
-  -- let mut roots = RootCertStore::from_iter(trust_anchors);
-  let roots0 := cfg.trustAnchors
-  -- #[cfg(feature = "tls-native-roots")] if with_native_roots { … }
-  let native : Except CfgErr (List Root) :=
-    if sys.featNative && cfg.withNativeRoots then
-      (if sys.nativeCerts.isEmpty then .error .nativeCertsNotFound else .ok (roots0 ++ sys.nativeCerts))
-    else .ok roots0
-  match native with
+  match nativeStep sys cfg with
   | .error e => .error e
   | .ok roots1 =>
-    -- #[cfg(feature = "tls-webpki-roots")] if with_webpki_roots { roots.extend(…) }
-    let roots2 := if sys.featWebpki && cfg.withWebpkiRoots then roots1 ++ sys.webpkiRoots else roots1
-    match addCaCerts roots2 cfg.certs with
+    -- for cert in ca_certs { roots.add_parsable_certificates(convert(&cert)?) }
+    match addCaCerts (webpkiStep sys cfg roots1) cfg.certs with
     | .error e => .error e
     | .ok roots3 =>
+      -- identity: convert_identity_to_pki_types(&identity)?; with_client_auth_cert(..)?
       match loadOptIdentity cfg.identity with
       | .error e => .error e
       | .ok ident =>
